@@ -296,6 +296,17 @@ func c05Enumerate(family string, bi int, b *c05Base, thorough bool, fn func(m *c
 				}
 			}
 		}
+	case "dag":
+		for _, c := range c05DagCases(b.img) {
+			_, isIndex := b.img.IndexOwner[c.object]
+			img, ok := c05DagImage(b.img, ps, c, isIndex)
+			if !ok {
+				continue
+			}
+			if !emit(c05DagDesc(c), "shared-subtree", img, "") {
+				return
+			}
+		}
 	case "chain":
 		// overflow chains that cycle with a tail (the last page points back to the k-th page of the chain)
 		// x declared payload lengths up to 2^62: a two-page, two-field corruption no single-field
@@ -399,7 +410,11 @@ func c05Enumerate(family string, bi int, b *c05Base, thorough bool, fn func(m *c
 			if err != nil {
 				continue
 			}
-			if !emit("sqlite_master sql := "+strconv.Quote(s), "hostile-sql", img.Bytes, s) {
+			desc := strconv.Quote(s)
+			if len(desc) > 400 {
+				desc = fmt.Sprintf("%s ... %s (%d bytes)", desc[:200], desc[len(desc)-60:], len(s))
+			}
+			if !emit("sqlite_master sql := "+desc, "hostile-sql", img.Bytes, s) {
 				return
 			}
 		}
@@ -466,6 +481,9 @@ func c05HostileSQL() []string {
 		ch := string([]byte{c})
 		out = append(out, "CREATE TABLE t1 (a, "+ch+"b, c)", "CREATE TABLE t1 (a"+ch+"b, c) "+ch)
 	}
+	// a very long run of doubled quotes inside a literal (28 MB of definition text): work per character must not
+	// grow with the length, and no recursion per character either
+	out = append(out, "CREATE TABLE t1 (a DEFAULT '"+strings.Repeat("''", 14000000)+"', b, c)")
 	return out
 }
 
@@ -770,7 +788,7 @@ type c05Shard struct {
 }
 
 func runC05(r *ev.Run) {
-	r.Rule = "base images: 5 small dbgen images (512-byte pages: two-level table and index trees, multi-page overflow chains in a rowid table, an index, a WITHOUT ROWID table and sqlite_master itself, multi-page sqlite_master; the fifth image runs the chain, field and trunc families only in the quick tier); mutants: (field) every structural field x a boundary alphabet (0, 1, +-1, 0x7f/0x80/0xff patterns, own page, every page, page count+1, 9-byte/negative varints, every serial type), (byte) every byte x 8 boundary values (x256 thorough), (chain) overflow chains whose last page points back to each page of the chain (cycle through the first page / cycle with a tail) x declared payload lengths {real, 4000, 2^20, 2^31, 2^40, 2^62}, (trunc) every length multiple of 64 and around page boundaries, (sql) hostile CREATE texts in sqlite_master incl. every ASCII punctuation character at the start of a token, inside a name and at the end of the text, (field2, thorough) pairs of related fields in one page, (journal) journal header fields x lengths on real files; every mutant runs every public operation in a worker subprocess; oracle: no panic, live heap < 3 GB, < 20 s CPU per operation (a hang, an allocation or a death of the worker counts only when it comes back twice with the mutant run alone). non-trivial = mutants (all differ from the base)"
+	r.Rule = "base images: 5 small dbgen images (512-byte pages: two-level table and index trees, multi-page overflow chains in a rowid table, an index, a WITHOUT ROWID table and sqlite_master itself, multi-page sqlite_master; the fifth image runs the chain, field and trunc families only in the quick tier); mutants: (field) every structural field x a boundary alphabet (0, 1, +-1, 0x7f/0x80/0xff patterns, own page, every page, page count+1, 9-byte/negative varints, every serial type), (byte) every byte x 8 boundary values (x256 thorough), (chain) overflow chains whose last page points back to each page of the chain (cycle through the first page / cycle with a tail) x declared payload lengths {real, 4000, 2^20, 2^31, 2^40, 2^62}, (dag) towers of interior pages that all share their child: depth x fan-out in {8x60, 3x60, 20x2, 30x1} under every table and index whose root is a leaf, (trunc) every length multiple of 64 and around page boundaries, (sql) hostile CREATE texts in sqlite_master incl. every ASCII punctuation character at the start of a token, inside a name and at the end of the text, and a 28 MB literal of doubled quotes, (field2, thorough) pairs of related fields in one page, (journal) journal header fields x lengths on real files; every mutant runs every public operation in a worker subprocess; oracle: no panic, live heap < 3 GB, < 20 s CPU per operation (a hang, an allocation or a death of the worker counts only when it comes back twice with the mutant run alone). non-trivial = mutants (all differ from the base)"
 	bin := os.Getenv("VCHECK_BIN")
 	if bin == "" {
 		bin, _ = os.Executable()
@@ -785,7 +803,7 @@ func runC05(r *ev.Run) {
 		r.Validated(1)
 		r.StateBytes(bases[i].img.Bytes)
 	}
-	families := []string{"field", "chain", "record", "byte", "trunc", "sql"}
+	families := []string{"field", "chain", "dag", "record", "byte", "trunc", "sql"}
 	if r.Thorough() {
 		families = append(families, "field2")
 	}
@@ -908,6 +926,9 @@ func c05RunShard(r *ev.Run, bin string, sh c05Shard, thorough string, bases []c0
 				art := map[string]interface{}{"family": sh.family, "base": bases[sh.base].name, "n": n, "mutation": m.Desc, "class": m.Class, "report": rest, "replay": fmt.Sprintf("vcheck c05worker %s %d %d %d %s", sh.family, sh.base, n, n+1, thorough)}
 				if m.sql != "" {
 					art["sql"] = m.sql
+					if len(m.sql) > 2000 {
+						art["sql"] = fmt.Sprintf("%s ... (%d bytes; the replay command rebuilds it)", m.sql[:400], len(m.sql))
+					}
 				}
 				switch kind {
 				case "panic":
